@@ -77,7 +77,7 @@ STATEMENTS = {
         "with self.__lock:": LOCAL, "self.__nb_active_threads += 1": "L:WActInc",
         "method, args, kwargs, future = task": LOCAL, "future.execute(method, args, kwargs)": LOCAL,
         "except Exception as ex:": LOCAL, "self._logger.exception(": LOCAL,
-        '"Error executing %s: %s", method.__name__, ex': LOCAL, ")": LOCAL, "finally:": LOCAL,
+        '"Error executing %s: %s",': LOCAL, 'getattr(method, "__name__", method),': LOCAL, "ex,": LOCAL, ")": LOCAL, "finally:": LOCAL,
         "self.__nb_pending_task -= 1": "L:WPendDec", "self.__nb_active_threads -= 1": "L:WActDec",
         # the retirement test: one model step for the whole (multi-line) condition
         "if (": ("group", "L:WTest"), "self.__nb_threads > self._min_threads": ("group", "L:WTest"),
@@ -239,9 +239,11 @@ class PoolRun(object):
         if kind[0] == "raise":
             outcome["exc"] = ValueError("task failure %d" % id(outcome))
 
+        cellref = {}
+
         def body():
             ctl.yield_point("task.begin")
-            tid = body.cell["tid"]
+            tid = cellref["cell"]["tid"]
             run.tasks[tid]["begins"] += 1
             ctl.record(("begin", tid))
             if kind[0] in ("wait", "waitopen"):
@@ -255,10 +257,16 @@ class PoolRun(object):
             if outcome["exc"] is not None:
                 raise outcome["exc"]
             return outcome["obj"]
+        body.__name__ = "task"
+        if kind[0] == "raise":
+            # a raising task is handed over as a callable WITHOUT __name__ (functools.partial): enqueue() accepts
+            # anything with __call__, and the worker's error handler must cope with it (finding F17)
+            import functools
+            body = functools.partial(body)
         body.cell = {"tid": None}
+        cellref["cell"] = body.cell
         body.kind = kind
         body.outcome = outcome
-        body.__name__ = "task"
         return body
 
     def _client(self, ci, ops):
